@@ -45,6 +45,11 @@ func mwAction(site string, sock *fakeSharedSocket) string {
 	case "c_load":
 		return "CLoad"
 	case "c_clear":
+		sock.mu.Lock()
+		defer sock.mu.Unlock()
+		if sock.failClr {
+			return "CClearFail"
+		}
 		return "CClear"
 	case "c_store":
 		return "CStore"
@@ -72,7 +77,7 @@ func mwAction(site string, sock *fakeSharedSocket) string {
 }
 
 var mwSite = map[string]string{"WLoad": "w_load", "WCas": "w_cas", "WWriteOk": "w_write", "WWriteTmo": "w_write", "FLoad": "f_load",
-	"FCasLast": "f_caslast", "FCas": "f_cas", "CLoad": "c_load", "CClear": "c_clear", "CStore": "c_store", "ALoad": "a_load", "ACas": "a_cas",
+	"FCasLast": "f_caslast", "FCas": "f_cas", "CLoad": "c_load", "CClear": "c_clear", "CClearFail": "c_clear", "CStore": "c_store", "ALoad": "a_load", "ACas": "a_cas",
 	"AArmOk": "a_arm", "AArmFail": "a_arm", "SLoad": "s_load", "SCas": "s_cas", "XLoad": "x_load", "XCas": "x_cas"}
 
 func TestMuxWrite(t *testing.T) {
@@ -149,11 +154,16 @@ func TestMuxWrite(t *testing.T) {
 			}
 			out.log(map[string]any{"ev": "Reset", "post": obs()})
 			// one model step of process p; logs the action that actually happened
-			do := func(p string, failArm bool) string {
+			do := func(p string, failArm, failClr bool) string {
 				site := s.at(p)
 				if site == "a_arm" {
 					sock.mu.Lock()
 					sock.failArm = failArm
+					sock.mu.Unlock()
+				}
+				if site == "c_clear" {
+					sock.mu.Lock()
+					sock.failClr = failClr
 					sock.mu.Unlock()
 				}
 				ev := mwAction(site, sock)
@@ -172,7 +182,7 @@ func TestMuxWrite(t *testing.T) {
 					st["skipped"]++
 					continue
 				}
-				switch ev := do(args[0], name == "AArmFail"); {
+				switch ev := do(args[0], name == "AArmFail", name == "CClearFail"); {
 				case ev == "":
 					st["skipped"]++
 				case ev != name:
@@ -184,7 +194,7 @@ func TestMuxWrite(t *testing.T) {
 			for round := 0; round < job.Drain; round++ {
 				moved := false
 				for _, n := range all {
-					if do(n, false) != "" {
+					if do(n, false, false) != "" {
 						moved = true
 					}
 				}
